@@ -10,3 +10,10 @@ if [ ! -x "$V/bin/python" ] || ! "$V/bin/python" -c "import crosshair, z3, bqski
   PIP_NO_INDEX=1 "$V/bin/pip" install -q --no-index --find-links /opt/veriftools/wheels crosshair-tool cvc5 >/dev/null
   "$V/bin/python" -c "import crosshair, z3, bqskit; print('overlay venv ready', z3.get_version_string())"
 fi
+# optional accelerator (vf/arena.py): the checks run the same without it, only slower
+N=/verif/vf/native
+if [ ! -f "$N/arena_cache.so" ] || [ "$N/arena_cache.c" -nt "$N/arena_cache.so" ]; then
+  (cc -O2 -shared -fPIC -o "$N/arena_cache.so.tmp" "$N/arena_cache.c" && mv "$N/arena_cache.so.tmp" "$N/arena_cache.so") \
+    >/dev/null 2>&1 || rm -f "$N/arena_cache.so.tmp"
+fi
+exit 0
